@@ -274,6 +274,26 @@ Section JointDistribution.
       cov sym None r' x y = Some (sym_mk_cov (nth (Nat.min i j) pn 1%positive) (nth (Nat.max i j) pn 1%positive)).
   Proof. exact (cjd_new_cov_lemma F f0 fmul fsqrt fround7 ftenth ie_init). Qed.
 
+  (* rvs=None: the etas of the IIV distributions none of whose parameters is fixed ... *)
+  Theorem cjd_default_selection : forall (fixed : id -> bool) (r : scoll) x,
+    In x (default_rvs fixed r) <->
+    exists d, In d r /\ In x (dnames d) /\ memp (dlevel d) [L_IIV] = true /\ existsb fixed (dsyms d) = false.
+  Proof. exact default_rvs_spec. Qed.
+
+  (* ... listed in collection order, so that with rvs=None the covariance names follow the template WITHOUT the
+     guard of cjd_cov_names_follow_template (the misnaming needs an explicit argument in another order) *)
+  Theorem cjd_default_in_collection_order : forall (fixed : id -> bool) (r : scoll), wf sym r = true ->
+    default_rvs fixed r = filter (fun n => memp n (default_rvs fixed r)) (names r).
+  Proof. exact default_rvs_in_order. Qed.
+
+  Theorem cjd_default_cov_names_follow_template : forall (fixed : id -> bool) pn p (r r' : scoll) p' x y d,
+    wf sym r = true ->
+    create_joint_distribution_default F f0 fmul fsqrt fround7 ftenth ie_init fixed pn p r = Ok (r', p') ->
+    In x (default_rvs fixed r) -> In y (default_rvs fixed r) -> In d r -> In x (dnames d) -> ~ In y (dnames d) ->
+    exists i j, index_of x (default_rvs fixed r) = Some i /\ index_of y (default_rvs fixed r) = Some j /\ i <> j /\
+      cov sym None r' x y = Some (sym_mk_cov (nth (Nat.min i j) pn 1%positive) (nth (Nat.max i j) pn 1%positive)).
+  Proof. exact (cjd_default_new_cov_lemma F f0 fmul fsqrt fround7 ftenth ie_init). Qed.
+
   Theorem split_names : forall inds (p : params F) (r : scoll),
     Permutation (names (fst (split_joint_distribution F inds p r))) (names r).
   Proof. exact (split_names_lemma F). Qed.
@@ -294,6 +314,20 @@ Section JointDistribution.
     In (q, v) (snd (split_joint_distribution F inds p r)).
   Proof. exact (split_keeps_variance_params_lemma F). Qed.
 End JointDistribution.
+
+(* _choose_cov_param_init, individual-estimates branch, given the correlation matrix of the two etas'
+   individual estimates (input): when the covariance matrix built from it passes the PSD test (oracle), the new
+   initial estimate is round(sd2 * corr[1][0] * sd1, 7), an exact zero being replaced by 0.0001 — for every
+   rounding function, PSD test, repair function, parameter set and 2 x 2 correlation matrix *)
+Theorem ie_cov_init_formula :
+  forall (fround7 : R -> R) (small : R) (is_psd : list (list R) -> bool) (repair : list (list R) -> list (list R))
+         (p : params R) (parent1 parent2 : id) (corr : list (list R)),
+    length corr = 2 ->
+    is_psd (ie_cov_matrix R 0%R Rmult sqrt Rplus ris0 small p parent1 parent2 corr) = true ->
+    ie_cov_init R 0%R Rmult sqrt fround7 Rplus ris0 small is_psd repair p parent1 parent2 corr =
+    fround7 (let c := (sqrt (pget R 0%R p parent2) * fget R 0%R corr 1 0 * sqrt (pget R 0%R p parent1))%R in
+             if ris0 c then small else c).
+Proof. exact ie_cov_init_formula_lemma. Qed.
 
 (* ================================ numeric side ==================================================== *)
 
